@@ -219,8 +219,24 @@ CHECKS.append({
             "counted as proved. F13a/F13b (sldImg / hdr KeyError) repaired by fix: commits.",
 })
 
+CHECKS.append({
+    "property_id": "C16",
+    "technique": "contract-based deductive verification (pyvc over the real OPC reader/loader functions with ghost packages as z3 arrays; z3) + bounded native irregularity injection",
+    "category": "proof",
+    "text": "One contract per tolerance / refusal on the function that implements it: _ContentTypeMap.__getitem__ over real CaseInsensitiveDict "
+            "objects with ghost storage (override by lower(name), else default by lower(ext), else KeyError, TypeError for non-PackURI); "
+            "PackageReader.rels_xml_for and _PackageLoader._xml_rels_for (absent rels item => empty relationships, never KeyError); "
+            "_Relationship.from_xml and _Relationships.load_from_xml for any number of relationship elements (iter_valid_rels summarised "
+            "from its real generator body: kept iff external or target present, so the parts[...] lookup is dominated by the guard; each kept "
+            "item keyed by its own rId with its own type/mode/target); _PhysPkgReader.factory, _ZipPkgReader.__getitem__, api.Presentation and "
+            "OpcPackage.main_document_part exception mapping; Package.core_properties creates the default part once; PartFactory._part_cls_for.",
+    "note": "Assumed: zipfile/os.path behaviour, PackURI arithmetic as functions of the name (C19), str.lower as an uninterpreted function. "
+            "_ContentTypeMap.from_xml, _PackageLoader._parts/_xml_rels/_load and the directory reader are covered only by the bounded "
+            "C16.native_irregular job (every irregularity at every location of two generated decks; never counted as proved).",
+})
+
 NOT_APPLICABLE = [
     {"property_id": p, "reason": _PENDING}
-    for p in ["C01", "C02", "C03", "C07", "C12", "C16",
+    for p in ["C01", "C02", "C03", "C07", "C12",
               ]
 ]
